@@ -13,6 +13,17 @@ pub use fixtures::{
     FixtureUsage, ParamInsertionInfo, ScopeMismatch, UndeclaredFixture,
 };
 
+/// std HashSet/HashMap stand-ins, switched in by the repository's cfg hook (solver build only)
+#[cfg(pytest_language_server_verif)]
+pub mod verif_collections;
+/// the set / map types the mounted repository sources use in this build
+pub mod coll {
+    #[cfg(pytest_language_server_verif)]
+    pub use crate::verif_collections::{HashMap, HashSet};
+    #[cfg(not(pytest_language_server_verif))]
+    pub use std::collections::{HashMap, HashSet};
+}
+
 #[macro_use]
 pub mod kx;
 pub mod stubs;
